@@ -1,4 +1,5 @@
 import FrappyProofs.Lemmas.Poller
+import FrappyProofs.Lemmas.PollerSlow
 import FrappyModel.Generated.C13
 /-
 C13 — property theorems (nothing but property theorems, the kept full statement of the unfinished one, and
@@ -170,26 +171,47 @@ theorem main_gap_bound (c : Consts) (env : Env) (hq : Quiet env) (D E : Nat) (hb
 parameters of the thread (the same expression as `Spec.C13.slowLimit`, which the monitor checks) -/
 def slowBound (slow N n D E : Nat) : Nat := slow + slow / 2 + (2 * N + 2) * sweepBound n D E + 2
 
-/-- **slow_refresh_bound — full statement (kept; NOT proved).**  After any number of turns the clock is within
-`slowBound` of a refresh of every polled parameter: its current time stamp, or the start of a `read_p` call of
-the poller.  Hypotheses: quiet bounded environment, every `slowinterval > 0`, time stamps are never set into the
-future. -/
-def slow_refresh_bound_statement : Prop :=
-  ∀ (c : Consts) (env : Env) (D E : Nat), Quiet env → Bounded env D E →
-  ∀ (σ : PollState), σ.toPoll = none → (∀ m ∈ σ.mods, 0 < m.slow) →
-  (∀ k, ∀ t ∈ env.touch k, ∀ σ' : PollState, t.stamp ≤ σ'.clock + env.dur σ'.nCall) →
-  ∀ (k i p : Nat) (m : Mod), σ.mods[i]? = some m → m.enabled = true → p ∈ m.polled →
-    ∃ t, (t = (thread c env k σ).σ.stamp i p ∨ t ∈ readsOf (thread c env k σ).evs i p) ∧
-      (thread c env k σ).σ.clock ≤
-        t + slowBound m.slow (nPolled (σ.mods.map infoOf)) σ.mods.length D E + (prologue c env σ).σ.clock
+/-- **slow_refresh_bound.**  From any state with an empty iterator (in particular the state in which the start-up
+round leaves the thread), in every quiet bounded environment, after any number of turns: the clock is at most
+`slowBound` past the latest refresh of every polled parameter `(i, p)` — or past the start, while nothing has been
+refreshed yet.  `refreshed i p` is the model's ghost for "latest refresh so far": the largest of the time stamps the
+parameter received (whoever set them) and of the start times of the poller's own `read_p` calls; the loop never reads it.
+`N` = number of polled parameters of all polled modules, `n` = number of modules of the thread.  Failing reads do not
+matter: outcomes are not looked at (`errors_contained`), and a read that fails still counts as the attempt it is. -/
+theorem slow_refresh_bound (c : Consts) (env : Env) (hq : Quiet env) (D E : Nat) (hb : Bounded env D E)
+    (σ : PollState) (i p : Nat) (m : Mod) (hm : σ.mods[i]? = some m) (he : m.enabled = true) (hp : p ∈ m.polled)
+    (hS : 0 < m.slow) (hls : m.lastSlow ≤ σ.clock) (hk : σ.stamp i p ≤ σ.refreshed i p) (ht : σ.toPoll = none)
+    (k : Nat) :
+    (run c env k σ []).σ.clock ≤
+      max ((run c env k σ []).σ.refreshed i p) σ.clock +
+        slowBound m.slow (allEntries 0 σ.mods).length σ.mods.length D E := by
+  have hok : ModOk i p m.slow σ m := ⟨hm, he, hp, rfl, hls⟩
+  have h0 : SlowInv i p m.slow (allEntries 0 σ.mods).length (sweepBound σ.mods.length D E) σ.mods.length σ.clock σ := by
+    refine ⟨⟨m, hok⟩, by rw [ht]; simp, Nat.le_refl _, rfl, hk, ?_⟩
+    rw [PhiOf_none _ _ _ _ _ ht, dueOf_eq i p m.slow σ m hok]
+    have : phiOut (allEntries 0 σ.mods).length (sweepBound σ.mods.length D E) σ.clock 0 (m.lastSlow + m.slow) ≤
+        σ.clock + slowC m.slow (allEntries 0 σ.mods).length (sweepBound σ.mods.length D E) := by
+      apply phiOut_evidence
+      · have : ((allEntries 0 σ.mods).length + 1) * sweepBound σ.mods.length D E =
+            (allEntries 0 σ.mods).length * sweepBound σ.mods.length D E + sweepBound σ.mods.length D E := by
+          rw [Nat.add_mul]; omega
+        omega
+      · omega
+    omega
+  have hr := run_slowInv c env hq D E hb i p m.slow (allEntries 0 σ.mods).length σ.mods.length σ.clock hS k σ [] h0
+  have h1 := clock_le_PhiAt i p (allEntries 0 σ.mods).length (sweepBound σ.mods.length D E)
+    (run c env k σ []).σ.clock ((run c env k σ []).σ.toPoll.getD []) (dueOf (run c env k σ []).σ i)
+  have h2 := hr.j
+  unfold PhiOf at h2
+  unfold slowBound
+  unfold slowC at h2
+  omega
 
-/-- **slow_refresh_bound_partial.**  The per-turn ingredients of the refresh bound, for every environment:
-(1) the loop never sleeps beyond a slow due time `last_slow + slowinterval` of a polled module;
-(2) a turn that finds the iterator alive does not wait at all: it is the sweep followed by the slow phase;
-(3) whatever a slow phase leaves in `to_poll` is shorter than what it found, or freshly collected — and a slow
-    phase that finds a stale entry calls exactly that parameter's read function (one call).
-Missing for the full statement: the counting argument that chains at most `2N+2` such turns. -/
-theorem slow_refresh_bound_partial (c : Consts) (env : Env) (σ : PollState) :
+/-- **slow-poll progress** (every environment, no hypotheses): the loop never sleeps beyond a slow due time
+`last_slow + slowinterval` of a polled module; a turn that finds the iterator alive does not wait (it is the sweep
+followed by the slow phase); a slow phase that finds a stale entry calls exactly that parameter's read function and
+leaves a shorter iterator. -/
+theorem slow_poll_progress (c : Consts) (env : Env) (σ : PollState) :
     (∀ (i : Nat) (m : Mod), σ.mods[i]? = some m → m.enabled = true →
       (readClock env σ).clock < wakeAt c (readClock env σ).clock σ.mods ∧ σ.toPoll.isNone = true →
       (turn c env σ).σ.clock ≤ m.lastSlow + m.slow) ∧
@@ -259,7 +281,18 @@ example : noPollB (traceOf exState [⟨1001, 0, .read 5, 1⟩] 1000 2000 1) = fa
 example : (applyExt exState (.setFastPoll 0 true 2)).trig = true ∧
     ((applyExt exState (.setFastPoll 0 true 2)).mods[0]?.map (·.interval)) = some 2 := by decide
 
-/-- the generated limits exclude `slowinterval = 0` (hypothesis of the refresh statement) -/
+/-- `slow_refresh_bound` on it: parameter 2 of module 1 (slow interval 60; N = 3 polled parameters, n = 3 modules,
+D = 3, E = 1, one sweep = 16) is never staler than `60 + 30 + 8·16 + 2 = 220` ticks, and it really is refreshed -/
+example : (run exConsts exEnv 40 exState []).σ.clock ≤
+      max ((run exConsts exEnv 40 exState []).σ.refreshed 1 2) exState.clock +
+        slowBound (exMod 25 60 [2]).slow (allEntries 0 exState.mods).length exState.mods.length 3 1 :=
+  slow_refresh_bound exConsts exEnv exEnv_quiet 3 1 exEnv_bounded exState 1 2 (exMod 25 60 [2]) rfl rfl
+    (by decide) (by decide) (by decide) (Nat.le_refl _) rfl 40
+
+example : slowBound (exMod 25 60 [2]).slow (allEntries 0 exState.mods).length exState.mods.length 3 1 = 220 ∧
+    1000 < (run exConsts exEnv 40 exState []).σ.refreshed 1 2 := by decide +kernel
+
+/-- the generated limits exclude `slowinterval = 0` (hypothesis of the refresh bound) -/
 example : 0 < Generated.C13.slowMin := by decide
 
 end Frappy.Props.C13
